@@ -119,6 +119,13 @@ func init() {
 			ex.oneSched = c.IsConst() && c.B
 			return nil
 		},
+		// verifSchedulePrefix(k): only the first k scheduling choice points of the path (from here on) fork over every
+		// enabled transition; later ones run the first enabled transition (bounded schedule exploration, stated bound)
+		"verifSchedulePrefix": func(ex *Exec, fn *ssa.Function, args []Value) Value {
+			ex.schedPrefix = int(ex.concInt(args[0], "verifSchedulePrefix"))
+			ex.schedPrefixOn = true
+			return nil
+		},
 		"verifRaceDetect": func(ex *Exec, fn *ssa.Function, args []Value) Value {
 			c := args[0].(*Term)
 			ex.race = c.IsConst() && c.B
